@@ -209,7 +209,7 @@ def rtFld (S : StrFns) (camel ku : Bool) (lv : LevelPred) (ms M : MDict) : Fld â
   | .nested n opt shape ci fs, p =>
     (p.1 == n) && nestedOK opt shape
       (rtObj lv (subSer ms n) (aggregate S false ci.desL fs (subDeser M n) camel)
-        (fun kvs => exFree S camel (kuNext ku camel ci.desL) ci.closedOwn (fs.map Fld.name) (subSer ms n) kvs
+        (fun kvs => exFree S camel (kuNext ku camel ci.desL) ci.closedAny (fs.map Fld.name) (subSer ms n) kvs
           && rtFields S camel (kuNext ku camel ci.desL) lv (subSer ms n)
             (aggregate S false ci.desL fs (subDeser M n) camel) fs kvs))
       p.2
@@ -223,7 +223,7 @@ def rtClsK (S : StrFns) (camel ku : Bool) (lv : LevelPred) (c : Cls) (ms : MDict
   match x with
   | .obj kvs =>
     lv ms (aggregate S false c.desL c.fields ov camel) strict kvs
-      && exFree S camel (kuNext ku camel c.desL) c.closedOwn (c.fields.map Fld.name) ms kvs
+      && exFree S camel (kuNext ku camel c.desL) c.closedAny (c.fields.map Fld.name) ms kvs
       && rtFields S camel (kuNext ku camel c.desL) lv ms (aggregate S false c.desL c.fields ov camel) c.fields kvs
   | _ => false
 
@@ -431,14 +431,14 @@ def levelDomE (S : StrFns) (ms M : MDict) (strict : Bool) (kvs : List (String Ã—
   levelDom S ms M strict kvs && kvs.all (entryOKB ms)
 
 mutual
-/-- every class nested below forbids additional properties in its own body -/
+/-- every class nested below forbids additional properties (in its own body or by inheritance) -/
 def closedFs : List Fld â†’ Bool
   | [] => true
   | f :: fs => closedF f && closedFs fs
 termination_by structural fs => fs
 def closedF : Fld â†’ Bool
   | .scalar _ _ => true
-  | .nested _ _ _ ci fs => ci.closedOwn && closedFs fs
+  | .nested _ _ _ ci fs => ci.closedAny && closedFs fs
 termination_by structural f => f
 end
 
